@@ -1033,6 +1033,12 @@ samples.append({"vm_compute": f"{len(lits)} (geometry, ray) cases: leg_points / 
 
 chk.cov["ambiguous_sign_cases_excluded"] = ambiguous
 chk.cov.update(stats)
+# ---- the glue model of the public functions (Model files added later, see manifest text) tied to the library on every run:
+#      inputs generated here, the library run on them, the model evaluated on the same inputs by vm_compute inside coqc
+import ties.tie_C05 as _tie_glue  # noqa: E402
+_tie_n = _tie_glue.run(chk, arim, rng, Q)
+chk.cov["glue_model_tie_comparisons"] = int(_tie_n or 0)
+
 chk.finish(
     evaluations=evaluations,
     distinct_nontrivial=len(nontrivial),
